@@ -2,18 +2,22 @@
    Every theorem is closed by [exact <lemma>] and followed by Print Assumptions.
 
    [run repaired g th ops] is the model of PersistModel.v (actor context + journal + storage over a heap of
-   slice backing arrays, with the two repairs fixes/C09-*.patch applied) started with snapshot threshold
+   slice backing arrays, with the repairs fixes/C09-*.patch applied) started with snapshot threshold
    [th] and driven through the history [ops] of events, failures (restart), stop + re-create cycles
-   (each with the threshold of the new context), explicit persists and queries. [g] is the capacity growth
-   policy of [append] (arbitrary). [arun th ops] is the abstract journal: the last snapshot and the events
-   recorded since, by the rule "snapshot of the full state when the count reaches the threshold". *)
+   (each with the threshold of the new context), explicit persists and queries — and the last three also in
+   the form whose Storage.Save returns an error and leaves the storage as it was ([FailF], [StopRecreateF th],
+   [PersistF]; any subset of the saves of a history may fail). [g] is the capacity growth
+   policy of [append] (arbitrary). [arun th ops] is the abstract journal: the last snapshot, the events
+   recorded since, by the rule "snapshot of the full state when the count reaches the threshold", and the
+   record the storage holds. [fault_free ops]: no operation of the history comes with a failing save (the
+   histories the theorems of the first round quantified over). *)
 From MV Require Import Lib.ListX C09.PersistModel C09.PersistProofs C09.OrderModel C09.OrderProofs C09.OrderRun.
 
 (* Refinement: for every growth policy, threshold and history, the outputs of the heap/slice model (results of
    StateChanged, message and sender seen after it, records handed to Storage.Save, messages delivered during
    each recovery, event counts seen while replaying, state after each launch, query answers) are those of the
-   abstract journal, and the concrete journal, read through the heap, IS the abstract journal: aliasing
-   between the stored record and the live journal's array is never observable. *)
+   abstract journal, and the concrete journal, read through the heap, IS the abstract journal. The history may
+   contain failing saves (the statement is the one of the first round; its quantifier has grown). *)
 Theorem C09_refines_abstract_journal : forall (g : nat -> nat -> nat) (th : Z) (ops : list op),
   snd (run repaired g th ops) = snd (arun th ops)
   /\ journal_view (fst (run repaired g th ops)) = (a_snap (fst (arun th ops)), a_tail (fst (arun th ops)))
@@ -21,9 +25,11 @@ Theorem C09_refines_abstract_journal : forall (g : nat -> nat -> nat) (th : Z) (
 Proof. exact refines_abstract_journal. Qed.
 Print Assumptions C09_refines_abstract_journal.
 
-(* After every history — any number of restarts and stop/re-create cycles, any thresholds — the state of
-   the current actor instance is exactly the list of all recorded events, in order. *)
+(* After every history without failing saves — any number of restarts and stop/re-create cycles, any thresholds —
+   the state of the current actor instance is exactly the list of all recorded events, in order. (With failing
+   saves: C09_recovers_last_successful_persist.) *)
 Theorem C09_state_is_recorded_history : forall (g : nat -> nat -> nat) (th : Z) (ops : list op),
+  fault_free ops = true ->
   actor (fst (run repaired g th ops)) = recorded ops.
 Proof. exact state_is_history. Qed.
 Print Assumptions C09_state_is_recorded_history.
@@ -33,6 +39,7 @@ Print Assumptions C09_state_is_recorded_history.
    launch output and as held by the context — equals the state the old instance had when it persisted,
    which is the full recorded history. *)
 Theorem C09_recovery_exact : forall (g : nat -> nat -> nat) (th : Z) (ops : list op) (o : op),
+  fault_free (ops ++ [o]) = true ->
   is_relaunch o = true ->
   let c := fst (run repaired g th ops) in
   launch_state (snd (step repaired g c o)) = Some (actor c)
@@ -46,6 +53,7 @@ Print Assumptions C09_recovery_exact.
    snapshot ++ those events is the whole recorded history; that pair is what the journal holds and what the
    persist of the old instance handed to Storage.Save. *)
 Theorem C09_no_loss_dup_reorder : forall (g : nat -> nat -> nat) (th : Z) (ops : list op) (o : op),
+  fault_free (ops ++ [o]) = true ->
   is_relaunch o = true ->
   let c := fst (run repaired g th ops) in
   let a := fst (arun th ops) in
@@ -62,6 +70,7 @@ Print Assumptions C09_no_loss_dup_reorder.
    the same event count (the number of events since the last snapshot), and the journal after the relaunch
    is the journal before it. *)
 Theorem C09_replay_does_not_record : forall (g : nat -> nat -> nat) (th : Z) (ops : list op) (o : op),
+  fault_free (ops ++ [o]) = true ->
   is_relaunch o = true ->
   let c := fst (run repaired g th ops) in
   let a := fst (arun th ops) in
@@ -86,11 +95,114 @@ Theorem C09_handler_sees_own_message : forall (g : nat -> nat -> nat) (th : Z) (
 Proof. exact event_output_registers. Qed.
 Print Assumptions C09_handler_sees_own_message.
 
-(* The capacity the runtime gives to slices is invisible. *)
+(* The capacity the runtime gives to slices is invisible (failing saves included). *)
 Theorem C09_capacity_invisible : forall (g g' : nat -> nat -> nat) (th : Z) (ops : list op),
   snd (run repaired g th ops) = snd (run repaired g' th ops).
 Proof. exact capacity_invisible. Qed.
 Print Assumptions C09_capacity_invisible.
+
+(* ------------------------------------------------------------------ failing saves (Storage.Save returns an error)
+
+   [last_persisted ops] (PersistModel.v, [track]) is defined by a plain recursion over the history, with no journal,
+   threshold or storage in it: the state of the current instance grows by each event; a persist that succeeds
+   (explicit, or the one every restart and every stop + re-create performs) remembers that state; a persist that fails
+   remembers nothing; every launch starts the new instance from the remembered state (the empty one if there is none).
+   [last_persisted ops] is the remembered state after [ops]. *)
+
+(* Refinement with the storage in view: for every growth policy, threshold and history INCLUDING failing saves, the
+   model's outputs are the abstract journal's, the journal read through the heap is the abstract journal, and the
+   stored record read through the heap (= what a Load would return) is the abstract stored record. *)
+Theorem C09_faulty_storage_refines_abstract_journal : forall (g : nat -> nat -> nat) (th : Z) (ops : list op),
+  snd (run repaired g th ops) = snd (arun th ops)
+  /\ journal_view (fst (run repaired g th ops)) = (a_snap (fst (arun th ops)), a_tail (fst (arun th ops)))
+  /\ stored_view (fst (run repaired g th ops)) = a_stored (fst (arun th ops))
+  /\ recovering (fst (run repaired g th ops)) = false.
+Proof. exact faulty_storage_refines. Qed.
+Print Assumptions C09_faulty_storage_refines_abstract_journal.
+
+(* The state of the actor after ANY history is [live_state]: the state rebuilt at the last launch followed by the
+   events recorded since. *)
+Theorem C09_state_is_live_state : forall (g : nat -> nat -> nat) (th : Z) (ops : list op),
+  actor (fst (run repaired g th ops)) = live_state ops.
+Proof. exact state_is_live_state. Qed.
+Print Assumptions C09_state_is_live_state.
+
+(* Every launch rebuilds the state of the last SUCCESSFUL persist: after any history [ops], a restart or a stop +
+   re-create [o], with a failing save or not, launches the new instance in the state the actor had at the last
+   Storage.Save that returned nil in [ops ++ [o]] — the save attempted by [o] itself when it succeeds — and in the
+   empty state if no save ever succeeded. That is the state reported at the launch, the state the context holds
+   afterwards, and the state the stored record still rebuilds ([rebuilds]: snapshot ++ events). *)
+Theorem C09_recovers_last_successful_persist : forall (g : nat -> nat -> nat) (th : Z) (ops : list op) (o : op),
+  is_relaunch o = true ->
+  let c := fst (run repaired g th ops) in
+  launch_state (snd (step repaired g c o)) = Some (last_persisted (ops ++ [o]))
+  /\ actor (fst (step repaired g c o)) = last_persisted (ops ++ [o])
+  /\ rebuilds (stored_view (fst (step repaired g c o))) = last_persisted (ops ++ [o]).
+Proof. exact recovers_last_successful_persist. Qed.
+Print Assumptions C09_recovers_last_successful_persist.
+
+(* At every moment of every history, what a Load would return rebuilds the state of the last successful persist. *)
+Theorem C09_stored_record_is_last_successful_persist : forall (g : nat -> nat -> nat) (th : Z) (ops : list op),
+  rebuilds (stored_view (fst (run repaired g th ops))) = last_persisted ops.
+Proof. exact stored_record_is_last_successful_persist. Qed.
+Print Assumptions C09_stored_record_is_last_successful_persist.
+
+(* A failing save changes nothing stored: after any history [ops], any further operations during which no save
+   succeeds — events (threshold snapshots truncate the journal, later events are appended in place over its old
+   array), queries, failing explicit persists, restarts and re-creations with failing saves — leave what a Load
+   returns exactly as it was. *)
+Theorem C09_failed_persist_changes_nothing_stored : forall (g : nat -> nat -> nat) (th : Z) (ops more : list op),
+  forallb saves_nothing more = true ->
+  stored_view (fst (run repaired g th (ops ++ more))) = stored_view (fst (run repaired g th ops)).
+Proof. exact failed_persist_changes_nothing_stored. Qed.
+Print Assumptions C09_failed_persist_changes_nothing_stored.
+
+(* No loss, duplication or reordering with failing saves: at every relaunch Storage.Save is handed the journal
+   (nothing when it is empty); the messages delivered to the new instance are a snapshot [sn] (if any) followed by
+   events [t], in order, each once, with snapshot ++ events = the state at the last successful persist — so [t] is
+   exactly what was recorded between that snapshot and that persist; every StateChanged during the replay returns
+   the same count; afterwards the journal is (sn, t), and so is the stored record (nothing stored iff both empty). *)
+Theorem C09_no_loss_dup_reorder_with_faults : forall (g : nat -> nat -> nat) (th : Z) (ops : list op) (o : op),
+  is_relaunch o = true ->
+  let c := fst (run repaired g th ops) in
+  let c' := fst (step repaired g c o) in
+  exists (sn : option (list Z)) (t : list Z),
+    unmarked (snd (step repaired g c o))
+      = OLaunch (to_save (journal_view c)) (snap_items sn ++ map REv t)
+                (repeat (Z.of_nat (length t)) (length t)) (snap_list sn ++ t)
+    /\ snap_list sn ++ t = last_persisted (ops ++ [o])
+    /\ journal_view c' = (sn, t)
+    /\ ((stored_view c' = None /\ sn = None /\ t = []) \/ stored_view c' = Some (sn, t)).
+Proof. exact no_loss_dup_reorder_with_faults. Qed.
+Print Assumptions C09_no_loss_dup_reorder_with_faults.
+
+(* The three behaviours that break this — each is [repaired] with ONE flag taken back; [launch_differs v g th ops o]:
+   [o] is a relaunch and the state it launches in variant [v] is not [last_persisted (ops ++ [o])]. *)
+
+(* MemoryStorage.Save as shipped kept the caller's slice (repaired by fixes/C09-memory-storage-copy.patch). Witness:
+   threshold 2; events 1 2 (snapshot) 3; persist — stored ([1 2], [3]); event 4 (snapshot, journal truncated in place);
+   event 5 overwrites the stored 3; restart with a failing save: launches [1 2 5], last successful persist [1 2 3]. *)
+Theorem C09_memory_storage_alias_as_shipped_refuted :
+  exists g th ops o, launch_differs save_aliases g th ops o.
+Proof. exact memory_storage_alias_as_shipped_refuted. Qed.
+Print Assumptions C09_memory_storage_alias_as_shipped_refuted.
+
+(* State.Load as shipped left the journal alone when nothing is stored (repaired by
+   fixes/C09-no-record-resets-journal.patch). Witness: events 1 2; restart with a failing save (launches []); event 3;
+   restart: launches [1 2 3], last successful persist [3]. *)
+Theorem C09_no_record_keeps_journal_as_shipped_refuted :
+  exists g th ops o, launch_differs norec_keeps_journal g th ops o.
+Proof. exact no_record_keeps_journal_as_shipped_refuted. Qed.
+Print Assumptions C09_no_record_keeps_journal_as_shipped_refuted.
+
+(* The seeded change "State.Load adopts the storage's slice" (s.events = events). Witness, for a storage whose copies
+   have spare capacity: threshold 2; event 1; restart — stored (-, [1]) and the journal is that slice; event 2 is
+   appended in place (snapshot, truncation); event 3 overwrites the stored 1; restart with a failing save: launches
+   [3], last successful persist [1]. *)
+Theorem C09_load_adopts_storage_slice_refuted :
+  exists g th ops o, launch_differs load_adopts g th ops o.
+Proof. exact load_adopts_storage_slice_refuted. Qed.
+Print Assumptions C09_load_adopts_storage_slice_refuted.
 
 (* OPEN FINDING (checks/c09_findings.json, C09-snapshot-before-apply). Full statement wanted:
      forall g th ops, actor (fst (run repaired_record_first g th ops)) = recorded ops
@@ -208,15 +320,56 @@ Example C09_example_repaired :
      OState [1; 2; 3; 4; 5]].
 Proof. vm_compute. reflexivity. Qed.
 
-(* aliasing is real in the model: after an explicit persist the stored record shares the journal's array, and a
-   later truncate + append overwrites the stored record's first element (stale record [4;2], not [1;2]) *)
+(* aliasing is real in the model of MemoryStorage.Save as shipped: after an explicit persist the stored record shares
+   the journal's array, and a later truncate + append overwrites the stored record's first element (stale record
+   [4;2], not [1;2]); repaired, the record has its own array and stays [1;2] *)
 Example C09_example_alias :
-  let c := fst (run repaired (fun _ _ => 8%nat) 3 [Event 1; Event 2; Persist; Event 3; Event 4]) in
-  match storage c with
-  | Some (sn, s) => (sn, contents (hp c) s, s_arr s =? s_arr (j_events (jr c)))%nat
-  | None => (None, [], false)
-  end = (None, [4; 2], true).
-Proof. vm_compute. reflexivity. Qed.
+  let view v :=
+    let c := fst (run v (fun _ _ => 8%nat) 3 [Event 1; Event 2; Persist; Event 3; Event 4]) in
+    match storage c with
+    | Some (sn, s) => (sn, contents (hp c) s, s_arr s =? s_arr (j_events (jr c)))%nat
+    | None => (None, [], false)
+    end in
+  view save_aliases = (None, [4; 2], true) /\ view repaired = (None, [1; 2], false).
+Proof. vm_compute. auto. Qed.
+
+(* failing saves, non-vacuity of the new theorems. Capacity 8 from the start, threshold 2: events 1 2 (snapshot) 3;
+   persist; 4 (snapshot: the journal is truncated in place) 5 6 (in-place appends over the old array, the second
+   one another snapshot) 7; a failing explicit persist; a restart whose save fails: it rebuilds [1 2 3]; event 8; a
+   stop + re-create whose save fails: [1 2 3] again; a restart that succeeds: nothing new to lose *)
+Example C09_example_failing_saves :
+  let ops := [Event 1; Event 2; Event 3; Persist; Event 4; Event 5; Event 6; Event 7; PersistF; FailF; Query;
+              Event 8; StopRecreateF 3; Event 9; Fail; Query] in
+  snd (run repaired (fun _ _ => 8%nat) 2 ops)
+  = [OEvent 1 (MAdd 1) WAsker false; OEvent 2 (MAdd 2) WAsker true; OEvent 1 (MAdd 3) WAsker false;
+     OSaved (Some (Some [1; 2], [3]));
+     OEvent 2 (MAdd 4) WAsker true; OEvent 1 (MAdd 5) WAsker false; OEvent 2 (MAdd 6) WAsker true;
+     OEvent 1 (MAdd 7) WAsker false;
+     OSaveFailed (OSaved (Some (Some [1; 2; 3; 4; 5; 6], [7])));
+     OSaveFailed (OLaunch (Some (Some [1; 2; 3; 4; 5; 6], [7])) [RSnap [1; 2]; REv 3] [1] [1; 2; 3]);
+     OState [1; 2; 3];
+     OEvent 2 (MAdd 8) WAsker true;
+     OSaveFailed (OLaunch (Some (Some [1; 2; 3; 8], [])) [RSnap [1; 2]; REv 3] [1] [1; 2; 3]);
+     OEvent 2 (MAdd 9) WAsker false;
+     OLaunch (Some (Some [1; 2], [3; 9])) [RSnap [1; 2]; REv 3; REv 9] [2; 2] [1; 2; 3; 9];
+     OState [1; 2; 3; 9]]
+  /\ last_persisted (firstn 10 ops) = [1; 2; 3] /\ live_state (firstn 9 ops) = [1; 2; 3; 4; 5; 6; 7]
+  /\ last_persisted ops = [1; 2; 3; 9]
+  /\ forallb saves_nothing (firstn 9 (skipn 4 ops)) = true
+  /\ stored_view (fst (run repaired (fun _ _ => 8%nat) 2 (firstn 13 ops))) = Some (Some [1; 2], [3]).
+Proof. vm_compute. repeat split. Qed.
+
+(* the same history on the three refuted variants: what the launches rebuild instead *)
+Example C09_example_failing_saves_as_shipped :
+  let launches v g th ops := flat_map (fun o => match launch_state o with Some st => [st] | None => [] end)
+                                      (snd (run v g th ops)) in
+  launches save_aliases go_grow 2 [Event 1; Event 2; Event 3; Persist; Event 4; Event 5; FailF] = [[1; 2; 5]]
+  /\ launches repaired go_grow 2 [Event 1; Event 2; Event 3; Persist; Event 4; Event 5; FailF] = [[1; 2; 3]]
+  /\ launches norec_keeps_journal go_grow 1000 [Event 1; Event 2; FailF; Event 3; Fail] = [[]; [1; 2; 3]]
+  /\ launches repaired go_grow 1000 [Event 1; Event 2; FailF; Event 3; Fail] = [[]; [3]]
+  /\ launches load_adopts (fun _ n => n + 3)%nat 2 [Event 1; Fail; Event 2; Event 3; FailF] = [[1]; [3]]
+  /\ launches repaired (fun _ n => n + 3)%nat 2 [Event 1; Fail; Event 2; Event 3; FailF] = [[1]; [1]].
+Proof. vm_compute. repeat split. Qed.
 
 (* the code AS IT IS (variant as_is), confirmed on the implementation by the harness:
    (a) three generations under one name, two events each: state at launch [], [1;1], [1;1] — the third
